@@ -524,16 +524,19 @@ def execute(sc, sched: Choices, cls, cfg):
     key_kind = ds["key_kinds"][0] if len(ds["key_kinds"]) == 1 else "multi"
     states, transitions = set(), set()
     events, results = [], []
+    preempt_sites = set()
     gen.apply_strategy(st)
 
     def new_ctx(with_fault=None):
-        return executor.SimContext(sched=sched, workers=st["workers"], cpu_count=st["cpu"], fault=with_fault, monitor=False)
+        return executor.SimContext(sched=sched, workers=st["workers"], cpu_count=st["cpu"], fault=with_fault, monitor=False, preempt=st.get("preempt", False))
 
     def account(ctx):
         rec["ticks"] += ctx.ticks
         rec["n_pools"] += ctx.n_pools
         rec["interleavings"].extend(ctx.interleavings())
         events.append(ctx.event_digest())
+        rec["n_preemptions"] = rec.get("n_preemptions", 0) + ctx.stats.get("preemptions", 0)
+        preempt_sites.update(ctx.preempt_sites)
         for k_, v_ in ctx.stats.items():
             if v_:
                 probes.add(k_)
@@ -738,6 +741,7 @@ def execute(sc, sched: Choices, cls, cfg):
             history_prefix.append(op["op"] if kind != "failing_call" else "failing_call")
 
     rec["probes"] = sorted(probes)
+    rec["preempt_sites"] = sorted(preempt_sites)
     rec["states"] = [repr(s_) for s_ in states]
     rec["transitions"] = [repr(t_) for t_ in transitions]
     rec["digest"] = gen.digest((cls[0], sc))
